@@ -468,6 +468,7 @@ func (c *Cluster) dropConn(sc *srvConn) {
 		p.done = true
 		if p.Answer == "" {
 			p.Answer = "conn-dropped"
+			p.AnsweredAt = c.Now()
 		}
 	}
 	sc.pending = nil
